@@ -15,7 +15,18 @@
 //!     session flags, number of paths processed); the two disk images must agree as well.
 //! Enumerated probes of inputs known to be dirty on the pinned tree: F18 (lexer-fatal error in a root:
 //! exit 101), D1 (a root whose local configuration fails to load aborts the loop), D3 (syntax error in
-//! a root on the `ignore` list: exit 1 without any diagnostic), and the informational OPTOUT probe.
+//! a root on the `ignore` list: exit 1 without any diagnostic), D4 and D5 (repaired: a stashed parser error after
+//! an ignored file with a recoverable one; a nested-path candidate that does not parse), and the informational
+//! OPTOUT and W1 probes.
+//!
+//! Added with the error-bookkeeping model (RF/Model/ParseErrors.lean): fault CLASSES (what the rustc parser
+//! does on the text: recoverable / stashed / warning / unrecoverable / unclosed / lexer-fatal, each measured on
+//! the pinned tree), `ignore` lists in four spellings x class of the ignored file x class of a file that is not
+//! ignored x which is parsed first x position; modules declared with nested paths
+//! (`#[cfg_attr(pred, path = "..")] mod m;`) x where the fault sits x default file present or not x last module
+//! or not; and two in-process correspondences of `perr.run` against the real `DiagCtxt` +
+//! `SilentOnIgnoredFilesEmitter` + `can_reset` (synthetic diagnostics, exhaustive up to length 3) and against
+//! `Parser::parse_crate` / `parse_file_as_module` on real files in one session.
 use std::collections::BTreeMap;
 use std::path::{Path, PathBuf};
 use std::process::Command;
@@ -1854,6 +1865,103 @@ pub fn run(tier: &str, seed: u64, out: &Path) -> i32 {
             }
         }
         o.probes.push(json!({"id": "D3", "fails": d3 > 0, "what": format!("a root file with an unclosed delimiter that is on its own `ignore` list (skip_children off): exit status 1 but nothing at all on stderr ({} of {} runs) — the silent emitter for ignored files swallows the only diagnostic", d3, pcs.len()), "detail": detail}));
+    }
+    // D4 (repaired): an ignored module with a recoverable error, then a module that is NOT ignored with an error
+    // the rustc parser stashes (`static X = 1;`): before the repair the run reset the count, wrote
+    // `static X: _ = 1;` and exited 0 without a diagnostic
+    {
+        let mut pcs = vec![];
+        for k in 0..STASHED.len() {
+            for (mi, mode) in [Mode::Files, Mode::Backup].iter().enumerate() {
+                let n = 140_000 + pcs.len();
+                pcs.push(probe_case(&mut prng, n, |c| {
+                    let order = c.visit_order();
+                    let (a, b) = (order[0], order[1]);
+                    c.nodes[a].fault = Some(FileFault::Recoverable(k * 3 + mi));
+                    c.nodes[b].fault = Some(FileFault::Stashed(k));
+                    c.ignored.push(a);
+                    c.cfg = vec![];
+                    c.toml = Some(format!("ignore = [\"{}\"]\n", c.nodes[a].rel.display()));
+                }, *mode, k % 2));
+            }
+        }
+        fill_expected(&mut pcs, &mut o);
+        let evs: Vec<Eval> = par_map(&pcs, |c| evaluate(c, &work, false));
+        let mut bad = 0;
+        let mut detail = vec![];
+        for (case, ev) in pcs.iter().zip(evs.iter()) {
+            let fails = oracles(case, ev);
+            if !fails.is_empty() {
+                bad += 1;
+                if detail.len() < 3 {
+                    detail.push(json!({"cmdline": ev.cmdline, "exit": ev.exit, "stderr": ev.stderr.chars().take(300).collect::<String>(), "oracles": fails.iter().map(|f| format!("{} {}", f.0, f.1)).collect::<Vec<_>>()}));
+                }
+            }
+        }
+        o.probes.push(json!({"id": "D4", "fails": bad > 0, "what": format!("`ignore = [\"a.rs\"]`, a.rs with a recoverable syntax error, then b.rs (not ignored) with an error the rustc parser stashes (`static X = 1;`, `const X = 1;`, `x.f::<u8>`): expected exit 1, a diagnostic and no file touched; {} of {} runs violate that", bad, pcs.len()), "detail": detail}));
+    }
+    // D5 (repaired): `#[cfg_attr(a, path = "good.rs")] #[cfg_attr(b, path = "bad.rs")] mod m;` as the last module,
+    // no default file, bad.rs with a syntax error: before the repair the candidate was skipped over and the crate
+    // written with exit status 0
+    {
+        let mut pcs = vec![];
+        for (k, class) in ["r", "u", "x", "f", "s"].iter().enumerate() {
+            for with_default in [false, true] {
+                let n = 150_000 + pcs.len();
+                let mut case = build_cfgattr_case(&mut prng, n, class, 2, with_default, 1, true, if k % 2 == 0 { Mode::Files } else { Mode::Backup });
+                case.kind = "probe".into();
+                pcs.push(case);
+            }
+        }
+        fill_expected(&mut pcs, &mut o);
+        let evs: Vec<Eval> = par_map(&pcs, |c| evaluate(c, &work, false));
+        let mut bad = 0;
+        let mut detail = vec![];
+        for (case, ev) in pcs.iter().zip(evs.iter()) {
+            let fails = oracles(case, ev);
+            if !fails.is_empty() {
+                bad += 1;
+                if detail.len() < 3 {
+                    detail.push(json!({"cmdline": ev.cmdline, "exit": ev.exit, "stderr": ev.stderr.chars().take(300).collect::<String>(), "oracles": fails.iter().map(|f| format!("{} {}", f.0, f.1)).collect::<Vec<_>>()}));
+                }
+            }
+        }
+        o.probes.push(json!({"id": "D5", "fails": bad > 0, "what": format!("a nested-path candidate (`#[cfg_attr(pred, path = \"bad.rs\")] mod m;`) that does not parse, declared last: expected exit 1, a diagnostic and no file touched; {} of {} runs violate that", bad, pcs.len()), "detail": detail}));
+    }
+    // W1 (informational; predicted by the model, RF.Props.C05 last example): a mere parser WARNING in a file that
+    // is not ignored raises has_non_ignorable_parser_errors, after which the recoverable error of an ignored file
+    // is no longer reset: the run fails (exit 1, nothing written) although no file outside the ignore list has an
+    // error.  That is `ignore` not working, not damage: the probe fails only if a file is touched.
+    {
+        let mut pcs = vec![];
+        for k in 0..WARNING.len() {
+            let n = 160_000 + pcs.len();
+            let mut case = probe_case(&mut prng, n, |c| {
+                let order = c.visit_order();
+                let (a, b) = (order[0], order[1]);
+                c.nodes[a].fault = Some(FileFault::Warning(k));
+                c.nodes[b].fault = Some(FileFault::Recoverable(k));
+                c.ignored.push(b);
+                c.cfg = vec![];
+                c.toml = Some(format!("ignore = [\"{}\"]\n", c.nodes[b].rel.display()));
+            }, Mode::Files, k % 2);
+            case.faulty = None;
+            pcs.push(case);
+        }
+        fill_expected(&mut pcs, &mut o);
+        let evs: Vec<Eval> = par_map(&pcs, |c| evaluate(c, &work, false));
+        let mut wrote = 0;
+        let mut exits = vec![];
+        for (case, ev) in pcs.iter().zip(evs.iter()) {
+            exits.push(ev.exit);
+            let pre = "f/";
+            let changed = ev.after.iter().any(|(k, v)| k.starts_with(pre) && ev.before.get(k) != Some(v));
+            if ev.exit != Some(0) && changed {
+                wrote += 1;
+            }
+            let _ = case;
+        }
+        o.probes.push(json!({"id": "W1", "fails": wrote > 0, "what": "informational: a parser warning (`multiple lines skipped by escaped newline`, `suffixes on a tuple index are invalid`) in a module that is not ignored, followed by an ignored module with a recoverable syntax error: the run fails with `cannot parse <the ignored file>` (the warning raised has_non_ignorable_parser_errors, so can_reset is never set); nothing is written, so C05 holds — the probe fails only if a file of the failing root is touched", "detail": {"exits": exits}}));
     }
     // OPTOUT: the root is excluded from processing by configuration (ignored under skip_children, or
     // disable_all_formatting): never parsed, exit 0, nothing printed.  Not a violation of C05 as written
